@@ -80,6 +80,11 @@ CLAIMED = {
          "No counterexample among generated scenarios over all builder and filesystem knobs, 1-5 hosts with TCP/UDP/tokio-select-spawn/filesystem/io_uring programs and crash/bounce/partition/hold controller scripts: the sequence of turmoil trace events (sends, deliveries, drops, receives with endpoints and payloads), step results and panics, Sim::elapsed and the program logs (virtual timestamps, values, error kinds, read_dir order, CQE order) were identical between two runs in one process, between that and two fresh processes, and with wall-clock pauses injected.",
          "Programs are pure functions of the scenario; fresh-process equality is between processes of this binary on this machine; a nondeterministic failure that does not reproduce on the final re-run of the shrunk case is still reported with the signature first seen.",
          "DESIGN.md §6 C01"),
+ "C10": ("exploration",
+         "model-based property testing (proptest): generated operation histories applied in lock-step to the real turmoil-fs (std shim, tokio shim and io_uring front-ends on one tree, two independent hosts) and to an inode-tree reference model, comparing every result and full scans",
+         "No counterexample (other than the listed known findings) among generated histories of up to 47 operations over 13 paths in nested directories (open with all 64 flag combinations, positional and cursor reads/writes, seek, set_len, rename, remove, create_dir(_all), remove_dir(_all), read_dir, metadata, syncs and clock advances at every position, three front-ends mixed, two hosts with identical names): every result (data, counts, positions, lengths, entry sets, Ok/Err and unambiguous error kinds) and every periodic full scan (existence, kind, length, content, read_dir as a set) equalled the reference model, scans before and after every sync and clock advance were identical, and the other host's tree never changed. The reference model itself was validated against the real Linux filesystem with the same interpreter.",
+         "All fault probabilities 0; a handle is only used while its path still names the inode it was opened on; objects touched by a known finding (F-C10-1..13, path-keyed pending log) are tainted and excluded from comparison while that finding is listed as known, and each finding is asserted by its committed probe replays.",
+         "DESIGN.md §6 C10"),
 }
 
 PENDING_REASON = "check not built yet in this round (planned, see DESIGN.md §6); not claimed until its check exists and has been shown silent on the unchanged tree"
